@@ -21,7 +21,7 @@ EXTENDS Naturals, Sequences, FiniteSets, TLC, Json
 
 CONSTANTS MaxItems, MaxDepth
 
-Heads == {"none", "lam_id", "lam_formals_inline", "lam_formals_ml", "lam_formals_at", "call", "call_rec", "call_paren_lam",
+Heads == {"none", "lam_id", "lam_formals_inline", "lam_formals_ml", "lam_formals_ml_cmt", "lam_formals_at", "call", "call_rec", "call_paren_lam",
           "lam_call", "with", "assert", "header_comment"}
 Lits == {"1", "\"s\"", "x", "a.b", "f x", "./p.nix", "true", "x: x + 1", "with p; [ a b ]", "if c then a else b",
          "{ }", "[ ]", "a ++ b", "(f x)", "null", "1.5", "f { a = 1; }"}
